@@ -24,6 +24,26 @@ Bounded-exhaustive enumeration (simplest first) of (macro definitions, invocatio
                            for every operand position of # and ##, including `placemarker ## q` and results of ##
                            that name another macro (F8_HELPERS: aM xM kM Mx Ma aG xG kG Gx Ga ...)
 
+Literal arguments of # (6.10.3.2p2: a \\ is inserted before each " and \\ of a string literal or character constant,
+and nowhere else).  In every family in which # can see an argument - F1 bodies holding `# p`, the stringizing shapes of
+F3, F4 bodies with `# __VA_ARGS__` / `# p` / `# __VA_OPT__(...)`, the F5 body `# p`, F8 operand expressions holding #
+and F8 inner macros that stringize (an argument is stringized after it was macro-expanded; a result of # is stringized
+again: nested quoting) - the arguments also range over
+  LITERALS     {"" L u U u8} x " x LIT_STR_TEXTS and {"" L u U} x ' x LIT_CHR_TEXTS, the texts being: empty (strings),
+               \\n \\\\ \\' \\" \\0 \\x41, a bare quote of the other kind (' in a string, " in a character constant), a plain
+               letter, \\\\\\" and a\\\\ (strings), and the delimiters of argument collection , ( )        (114 literals)
+  LIT_PHRASES  several tokens (c == '"', adjacent literals with / without white space, across new-lines), a prefix
+               letter separated from its literal (L '\\n', u8'a'), multi-character constant, the pp-tokens ` and lone
+               backslash next to literals (valid "other" pp-tokens; a lone ' or " is undefined and not enumerated), and
+               object-like macros QC QS whose replacement lists are literals
+  LIT_CORE / LIT_MINI   reduced sets (one literal per kind of difficulty) for the larger bodies and for pairs
+(bounds: F1_LIT_BOUND, F3_LIT_BOUND, F4_LIT_BOUND, F8_LIT; evidence key stringize_literal_alphabet).  The text of a
+stringized result is compared byte for byte: it is one pp-token spelling in the model's, gcc's and chibicc's token
+sequences, and the model accepts a result only if it re-lexes as ONE string literal (else the case is undefined).
+The known deviation "backslash outside a literal is doubled" (findings.d/C09.txt) gets its signature only when the
+operand of # holds a backslash outside a literal AND chibicc's tokens equal the model's with exactly that deviation
+transcribed (cpp.stringize(escape_everything=True)); a wrongly escaped literal never matches it.
+
 Name sets.  Hiding (6.10.3.4p2) depends on the identity of a macro name, not on resemblance: F2 is enumerated over
 six name sets (F2_NAMINGS: names differing in the first character only; each a proper prefix of the next: M M_ M_x;
 each a proper suffix of the next: M xM _xM; mixed; differing in the last character only: Ma Mb Mc; differing in the
@@ -58,7 +78,11 @@ RULE = ("a case = (macro definitions, invocation text); non-trivial iff the refe
         "differ in the last character only or in letter case only (coverage key name_sets).  # / ## operands are enumerated directly (F1) and "
         "in two-level compositions (F8: outer O(p,q) / O(p,...) = IN( e ) for every operand expression e of <= L tokens "
         "over {p q|__VA_ARGS__ # ## x}, every chain A ## B ## C over {p q|__VA_ARGS__ x} and every inner macro IN in f8_inner_macros, over the argument grid "
-        "f8_arguments squared)")
+        "f8_arguments squared).  Wherever # can see an argument (F1, F3, F4, F5, F8) the arguments also range over string "
+        "literals and character constants of every encoding prefix whose text is empty, holds a backslash escape "
+        "(\\n \\\\ \\' \\\" \\0 \\x41), a double quote, a single quote or an argument delimiter, alone and in phrases with other "
+        "tokens, lone backslashes and macro-produced literals (coverage key stringize_literal_alphabet); the stringized "
+        "text is compared byte for byte and must be one string literal")
 
 # ------------------------------------------------------------------------------------------------------------
 # enumerators.  Macro names carry '@', replaced by a per-case suffix when the case is rendered.
@@ -77,6 +101,55 @@ F1_ARGS = {"quick": ["", "a", "a b", "1", "+", "( a , b )", "E@", "M@", '"s"', "
                         "- 1", ".", "1.", "e", "++", "a\nb", "F@", "a M@", "M@ E@"]}
 F1_BOUND = {"quick": (3, 4), "thorough": (4, 5)}      # (full argument grid up to, reduced grid up to)
 F1_ARGS_REDUCED = ["", "a", "1", "E@", "a b"]
+
+
+# ---- literal alphabet for arguments that # can see (F1, F3, F4, F5, F8) ------------------------------------------
+# 6.10.3.2p2: # inserts a \\ before each " and \\ of a string literal AND of a character constant, of every encoding
+# prefix, and nowhere else.  Every literal below is an argument of every construction in which # sees the argument.
+LIT_ESCAPES = ["\\n", "\\\\", "\\'", '\\"', "\\0", "\\x41"]          # \n \\ \' \" \0 \x41
+LIT_STR_PREFIXES = ["", "L", "u", "U", "u8"]
+LIT_CHR_PREFIXES = ["", "L", "u", "U"]
+# text between the quotes: empty string, each escape, a bare quote of the other kind, a plain letter, an escaped
+# backslash followed by an escaped quote, a trailing escaped backslash, and the characters that delimit arguments
+LIT_STR_TEXTS = [""] + LIT_ESCAPES + ["'", "a", '\\\\\\"', "a\\\\", ",", "(", ")"]
+LIT_CHR_TEXTS = LIT_ESCAPES + ['"', "a", ",", "(", ")"]
+LITERALS = ([pf + '"' + t + '"' for pf in LIT_STR_PREFIXES for t in LIT_STR_TEXTS] +
+            [pf + "'" + t + "'" for pf in LIT_CHR_PREFIXES for t in LIT_CHR_TEXTS])
+# arguments of several tokens; tokens that resemble quotes or hold a backslash without being literals (a lone backslash
+# and ` are valid pp-tokens, 6.4p3 "each non-white-space character that cannot be one of the above"; a lone ' or "
+# is undefined behaviour and not enumerated); object-like macros QC QS whose replacement lists are literals
+LIT_PHRASES = ["c == '\"'", '"a" "\\n"', '"a""b"', "'\\n''\\\\'", "( '\"' )", "'a' + 1", "L '\\n'", 'u8 "x"', "u8'a'",
+               "'\"' \"'\"", "L\"a\"L'\"'", "'ab'", "`", "` '\\'' `", "\\ \"\\n\"", "\\ '\\\\'", "'\"' \\ n", "\\\\", "\\\"s\"", "\\",
+               "QC@", "QS@", "QC@ QS@ '\\0'", "G@ ( '\\\\' )", "a\n'\\n'\n\"\\\"\""]
+LIT_CORE = ["'\\n'", "'\"'", "L'\\\\'", '"\\""', 'u8"\\\\"', '""', "'\\''", "U\"'\""]       # one of each kind of difficulty
+LIT_MINI = ["'\\n'", "'\"'", '"\\""', 'L"\\\\"']
+LIT_SECOND = ["a", "'\\n'", '"\\""']                                          # the other argument of a two-parameter macro
+HELPERS["QC@"] = "#define QC@ '\\n'"
+HELPERS["QS@"] = "#define QS@ \"\\\"\" L'\"'"
+# per tier: (all LITERALS + LIT_PHRASES up to body length, LIT_CORE up to, LIT_MINI up to)
+F1_LIT_BOUND = {"quick": (3, 3, 4), "thorough": (4, 5, 5)}
+
+
+def f1_literal_args(body, used, L, tier):
+    """Argument tuples over the literal alphabet for a function-like body in which # is applied to a parameter."""
+    if "#" not in body or "##" in body:
+        return          # # and ## in one body: order unspecified or the paste is invalid for literals
+    strd = [p for p in used if any(body[i] == "#" and body[i + 1] == p for i in range(len(body) - 1))]
+    if not strd:
+        return
+    full, core, mini = F1_LIT_BOUND[tier]
+    alpha = LITERALS + LIT_PHRASES if L <= full else LIT_CORE if L <= core else LIT_MINI if L <= mini else []
+    seen = set()
+    for sp in strd:
+        others = [p for p in used if p != sp]
+        for lit in alpha:
+            for oc in itertools.product(LIT_SECOND if L <= full else ["a"], repeat=len(others)):
+                amap = dict(zip(others, oc))
+                amap[sp] = lit
+                combo = tuple(amap[p] for p in used)
+                if combo not in seen:
+                    seen.add(combo)
+                    yield combo
 
 
 def f1_body_ok(body, params, funclike):
@@ -107,7 +180,15 @@ def gen_f1(tier):
                     continue
                 used = [p for p in params if p in body]
                 btxt = " ".join(body)
-                for combo in itertools.product(args_alpha, repeat=len(used)):
+                combos = itertools.product(args_alpha, repeat=len(used))
+                if sname in ("f1", "f2"):
+                    first = set(itertools.product(args_alpha, repeat=len(used)))
+                    lit = [c for c in f1_literal_args(body, used, L, tier) if c not in first]
+                    if sname == "f2" and len(used) == 1 and L > 2:
+                        # second position of two mirrors the one-parameter shape: literals holding , ( ) and the core
+                        lit = [c for c in lit if c[0] in LIT_CORE or any(x in c[0] for x in ('","', "'('", '")"', "','", "( '"))]
+                    combos = itertools.chain(combos, lit)
+                for combo in combos:
                     amap = dict(zip(used, combo))
                     if sname == "obj":
                         inv = "F@"
@@ -225,6 +306,12 @@ def f3_texts(maxlen):
             yield t
 
 
+# literals whose text is a delimiter of argument collection or needs escaping, substituted for the `a` tokens of the
+# invocation texts under the stringizing shapes: (first `a`, every further `a`)
+F3_LITS = [('","', "'('"), ("'\"'", '")"'), ("'\\n'", '"\\""'), ("')'", "'\\\\'"), ("L'\\''", 'u8"("'), ('"(\\""', "'\\0'")]
+F3_LIT_BOUND = {"quick": (5, 2), "thorough": (6, 6)}       # (texts up to this many tokens, first n pairs of F3_LITS)
+
+
 def gen_f3(tier):
     for t in f3_texts(F3_BOUND[tier]):
         inv = " ".join(t).replace(" \n ", "\n").replace("\n ", "\n").replace(" \n", "\n")
@@ -233,6 +320,16 @@ def gen_f3(tier):
                 continue
             yield ("F3", "F3/%s/%s" % (sname, " ".join(x if x != "\n" else "NL" for x in t).replace("@", "")),
                    ("#define %s %s" % (head, body),), inv)
+            if sname in ("s1", "s2", "sv") and "a" in t and len(t) <= F3_LIT_BOUND[tier][0]:
+                for l1, l2 in F3_LITS[:F3_LIT_BOUND[tier][1]]:
+                    k = 0
+                    tl = []
+                    for x in t:
+                        tl.append(x if x != "a" else (l1 if k == 0 else l2))
+                        k += x == "a"
+                    invl = " ".join(tl).replace(" \n ", "\n").replace("\n ", "\n").replace(" \n", "\n")
+                    yield ("F3", "F3/%s/%s" % (sname, " ".join(x if x != "\n" else "NL" for x in tl).replace("@", "")),
+                           ("#define %s %s" % (head, body),), invl)
 
 
 F4_ALPHA = ["V", "p", ",", "##", "#", "x", "O(", ")"]
@@ -246,6 +343,27 @@ F4_EXTRA_BODIES = ["p , ## V", ", ## V", "x , ## V y", "f ( p , ## V )", "O( , )
                    "# O( V )", "O( p ## V )", "x ## O( y )", "O( x ) ## y", "O( x ## ) y", "O( ( V ) )", "O( V V )",
                    "O( p ) O( p )", "p O( O( x ) )", "x ## V ## p", "# V # p", "# p , # V", "V ## V", "O( ) ## x",
                    "x ## O( )", "O( , ## V )", ", ## V ## x", ", ## p", "p ## , ## V", "p ## V ## p", "V ## V ## V", "p ## V ## x"]
+
+
+# literal argument lists for the bodies in which # sees an argument (# __VA_ARGS__, # p, # __VA_OPT__(...)):
+# every LIT_CORE literal alone / after a plain first argument, pairs LIT_CORE x LIT_MINI separated by the comma that
+# # __VA_ARGS__ has to reproduce, a trailing empty argument, three literals, macros that produce literals
+def _f4_lit_arglists():
+    v0 = list(LIT_CORE) + ["%s , %s" % (a, b) for a in LIT_CORE for b in LIT_MINI]
+    v0 += ["'\\n' ,", ", '\"'", "QC@ , QS@", "'\\\\' , \"\\\\\" , L'\"'", "'\"'\n,\n\"'\"", "c == '\"' , \\ n"]
+    v1 = list(LIT_CORE) + ["a , %s" % a for a in LIT_CORE] + ["%s ," % a for a in LIT_CORE]
+    v1 += ["%s , %s" % (a, b) for a in LIT_CORE for b in LIT_MINI]
+    v1 += ["a , '\\n' , \"\\\"\"", "'\"' , QC@ , QS@", "'\\\\' , \"\\\\\" , L'\"'", "a , c == '\"' , \\ n"]
+    return {"v0": v0, "v1": v1, "n1": v1}
+
+
+F4_LIT_ARGLISTS = _f4_lit_arglists()
+F4_LIT_REDUCED = {"v0": ["'\\n'", "'\"' , \"\\\"\""], "v1": ["'\\n'", "'\"' , \"\\\"\"", "a , L'\\\\' , \"\""],
+                  "n1": ["'\\n'", "'\"' , \"\\\"\"", "a , L'\\\\' , \"\""]}
+F4_LIT_MEDIUM = dict((k, list(LIT_CORE) + ["%s , %s" % (a, b) for a, b in zip(LIT_MINI, LIT_MINI[1:] + LIT_MINI[:1])])
+                     for k in ("v0", "v1", "n1"))
+# per tier: full literal lists up to this body length (and for F4_EXTRA_BODIES), medium lists up to, reduced lists up to
+F4_LIT_BOUND = {"quick": (2, 3, 3), "thorough": (3, 4, 5)}
 
 
 def f4_body_ok(body):
@@ -279,10 +397,22 @@ def gen_f4(tier):
             if "p" in toks and "p" not in params:
                 continue
             btxt = " ".join(vname if t == "V" else "__VA_OPT__ (" if t == "O(" else t for t in toks)
-            for al in F4_ARGLISTS[sname]:
+            als = F4_ARGLISTS[sname]
+            if "#" in toks:
+                lfull, lmed, lred = F4_LIT_BOUND[tier]
+                if len(toks) <= lfull or b in F4_EXTRA_BODIES:
+                    als = als + F4_LIT_ARGLISTS[sname]
+                elif len(toks) <= lmed:
+                    als = als + F4_LIT_MEDIUM[sname]
+                elif len(toks) <= lred:
+                    als = als + F4_LIT_REDUCED[sname]
+            for al in als:
                 inv = ("F@ ( %s )" % al).replace("(  )", "( )")
-                yield ("F4", "F4/%s/%s/%s" % (sname, b, al.replace("@", "")),
+                yield ("F4", "F4/%s/%s/%s" % (sname, b, al.replace("@", "").replace("\n", " NL ")),
                        with_helpers(("#define %s %s" % (head, btxt),), inv), inv)
+
+
+F5_LIT_INVS = ["F@ ( '\\n' )", "F@ ( '\"' , \"\\\"\" )", "F@ ( L'\\\\' ) ( u8\"\\\\\" )", "F@\n( '\\'' \"'\" )"]    # body `# p` only
 
 
 def gen_f5(tier):
@@ -301,7 +431,7 @@ def gen_f5(tier):
             continue
         line = "%s F@%s%s%s%s" % (hd, gap, pl, bgap, body)
         line2 = "%s  F@%s%s%s %s" % (hd, gap, pl, bgap, body.replace(" ", "  "))
-        for inv in invs:
+        for inv in (invs + F5_LIT_INVS if body == "# p" else invs):
             if redef == "none":
                 defs = (line,)
             elif redef == "same":
@@ -436,6 +566,33 @@ F8_HELPERS = [("M@", "#define M@ m 2"), ("E@", "#define E@"), ("G@", "#define G@
               (", O@ )", "#define xO@ xo"), ("O@ )", "#define kO@ ko")]
 
 
+# literal arguments (F8_LIT: LIT_CORE and macros producing literals) wherever # can see an argument at either level:
+# the operand expression holds # or the inner macro stringizes.  Pairs: literal x plain, plain x literal, literal
+# with itself, and each literal next to the nearest literal of the other kind (string / character constant).
+F8_LIT = {"quick": LIT_MINI + ["QC@", "QS@"], "thorough": LIT_CORE + ["QC@", "QS@", "c == '\"'", "\\ '\\n'"]}
+F8_HELPERS += [("QC@", HELPERS["QC@"]), ("QS@", HELPERS["QS@"])]
+
+
+def f8_literal_pairs(body, inner, variadic, tier):
+    if "#" not in body and inner not in ("str", "xstr"):
+        return []
+    pairs = []
+    hasp, hasq = "p" in body, "q" in body
+    for k, lit in enumerate(F8_LIT[tier]):
+        other = LIT_CORE[(k + 3) % len(LIT_CORE)]
+        if hasp:
+            pairs.append((lit, "a"))
+        if hasq:
+            pairs.append(("a", lit))
+        if hasp and hasq:
+            pairs.append((lit, lit))
+            if tier != "quick":
+                pairs.append((lit, other))
+        if hasq and variadic and (tier != "quick" or k < 2):
+            pairs.append(("a", "%s , %s" % (lit, other)))
+    return pairs
+
+
 def f8_bodies(maxlen, second):
     """Operand expressions: token sequences over F8_ALPHA that are valid replacement-list fragments."""
     for L in range(1, maxlen + 1):
@@ -467,8 +624,9 @@ def gen_f8(tier):
             for inner in F8_INNERS[tier]:
                 idef = "#define IN@(%s) %s" % ("..." if variadic else "z", F8_INNER_DEFS[inner][1 if variadic else 0])
                 odef = "#define O@(p,%s) IN@ ( %s )" % ("..." if variadic else "q", etxt)
-                for pa in pgrid:
-                    for qa in qgrid:
+                plain = [(pa, qa) for pa in pgrid for qa in qgrid]
+                for pa, qa in plain + [x for x in f8_literal_pairs(body, inner, variadic, tier) if x not in plain]:
+                    if True:
                         if qa is None:
                             inv = "O@ ( %s )" % pa
                         else:
@@ -538,7 +696,8 @@ KEY_FEATURES = {"stringize", "stringize-across-newline", "stringize-va-opt", "pa
                 "paste-both-placemarkers", "gnu-comma-paste", "va-opt", "hideset-blocked", "argument-pre-expanded",
                 "invocation-spans-lines", "variadic-missing", "variadic-empty", "rescan-invocation-with-mixed-hidesets",
                 "funclike-name-at-end-of-argument", "redefinition", "parameter-used-twice-expanded",
-                "builtin:__COUNTER__", "builtin:__LINE__", "builtin:__FILE__", "builtin:__BASE_FILE__"}
+                "builtin:__COUNTER__", "builtin:__LINE__", "builtin:__FILE__", "builtin:__BASE_FILE__",
+                "stringize-string-literal", "stringize-character-constant", "stringize-result-of-#"}
 
 
 def feature_class(features):
@@ -611,7 +770,19 @@ def va_opt_subclass(case, features):
     return "plain-content"
 
 
-def classify(case, features, exp, status, got):
+def explained_by_escaping_everything(text, mark, got):
+    """Known deviation of the pinned tree (findings.d/C09.txt): quote_string() puts a \\ before EVERY \\ and " of the
+    stringized text, also outside string literals and character constants.  True iff the model with exactly that
+    deviation transcribed (cpp.stringize(escape_everything=True)) reproduces chibicc's token sequence."""
+    try:
+        pp = cpp.Preprocessor("c.c", stringize_escapes_everything=True)
+        sp = cpp.spell(pp.preprocess(text))
+    except (cpp.Undefined, cpp.Unmodelled, cpp.LexError):
+        return False
+    return mark in sp and sp[sp.index(mark) + 1:] == got
+
+
+def classify(case, features, exp, status, got, text=None, mark=None):
     """Signature `C09|construct class|deviation class` for a deviation from the oracle."""
     fam = case[0]
     fc = feature_class(features)
@@ -620,6 +791,12 @@ def classify(case, features, exp, status, got):
     if isinstance(status, int) and status < 0:
         return "C09|%s|%s|crash:signal%d" % (fam, fc, -status)
     d0 = case[2][0] if case[2] else ""
+    if (status == 0 and got is not None and text is not None and "stringize-backslash-outside-literal" in features
+            and deviation_class(exp, got) == "string-text:backslashes-differ"
+            and explained_by_escaping_everything(text, mark, got)):
+        # only an operand of # that holds a backslash OUTSIDE a literal, and only the exact known wrong answer (whatever
+        # construct the # stands in); a literal or character constant that is escaped wrongly never gets this signature
+        return "C09|stringize|backslash-outside-literal|backslashes-differ"
     if (status == 0 and "gnu-comma-kept-before-empty" in features and "stringize-va-opt" not in features
             and deviation_class(exp, got) == "dropped:,"):
         return "C09|gnu-comma|variable-argument-present-but-empty|comma-deleted"
@@ -656,8 +833,6 @@ def classify(case, features, exp, status, got):
         return "C09|gnu-comma|variable-argument-present-but-empty|comma-deleted"
     if dc == "string-text:white-space-differs" and "stringize-across-newline" in features:
         return "C09|stringize|newline-between-argument-tokens|space-missing"
-    if dc == "string-text:backslashes-differ" and ("stringize" in features or "stringize-va-opt" in features):
-        return "C09|stringize|backslash-outside-literal|backslashes-differ"
     return "C09|%s|%s|%s" % (fam, fc, dc)
 
 
@@ -705,6 +880,12 @@ REPLAY_CHAIN = ("$CHIBICC -cc1 -E -cc1-input alone.c alone.c > a.txt 2> a.err; s
                 "echo 'same case, different result when other cases precede/follow it:'; diff ta.txt tp.txt; exit 1")
 
 
+def show(text):
+    """Text of a case for a description line: no backslashes and no newlines (the lines are post-processed by shell
+    tools whose `echo` interprets backslash escapes)."""
+    return text.replace("\\", "{bs}").replace("\n", " {NL} ")
+
+
 def _viol(sig, desc, files, replay):
     return {"sig": sig, "desc": desc, "files": files, "replay": replay}
 
@@ -716,7 +897,7 @@ def _shard(args):
            "ref_rejected": 0, "chibicc_runs": 0, "gcc_runs": 0, "viol": [], "viol_counts": {}, "done": False,
            "undefined_termination_checked": 0, "chain_judged": 0, "features": {}, "samples": [],
            "unmodelled": 0, "dis_samples": [], "outcomes": {}, "model_errors": [], "harness_timeouts": 0,
-           "undefined_same_definition_not_rerun": 0}
+           "undefined_same_definition_not_rerun": 0, "stringize_judged": 0}
     if time.time() > deadline:
         return res
     os.makedirs(wd, exist_ok=True)
@@ -724,7 +905,7 @@ def _shard(args):
     def add_viol(sig, desc, files, replay):
         res["viol_counts"][sig] = res["viol_counts"].get(sig, 0) + 1
         if res["viol_counts"][sig] == 1:
-            res["viol"].append(_viol(sig, desc, files, replay))
+            res["viol"].append(_viol(sig, show(desc), files, replay))
 
     # ---- 1. model --------------------------------------------------------------------------------------------
     recs = []
@@ -830,7 +1011,7 @@ def _shard(args):
             res["undefined_termination_checked"] += 1
             if st == "hang" or (isinstance(st, int) and st < 0):
                 add_viol("C09|%s|input-with-undefined-expansion(%s)|%s" % (fam, r["undef"], "hang" if st == "hang" else "crash:signal%d" % -st),
-                         "chibicc does not terminate normally on: %s" % ctext.replace("\n", " \\n "),
+                         "chibicc does not terminate normally on: %s" % show(ctext),
                          {"c.c": r["text"]}, REPLAY_TERM)
             continue
         # two-oracle rule
@@ -847,7 +1028,7 @@ def _shard(args):
         if not r["judge"]:
             if st == "hang" or (isinstance(st, int) and st < 0):
                 add_viol(classify(r["case"], r["features"], r["exp"], st, None),
-                         "chibicc does not terminate normally on: %s" % ctext.replace("\n", " \\n "),
+                         "chibicc does not terminate normally on: %s" % show(ctext),
                          {"c.c": r["text"]}, REPLAY_TERM)
             continue
         res["judged"] += 1
@@ -856,21 +1037,25 @@ def _shard(args):
             res["nontrivial_hashes"].append(hashlib.sha1(ctext.encode()).digest()[:8])
         for ft in r["features"]:
             res["features"][ft] = res["features"].get(ft, 0) + 1
+        if "stringize" in r["features"] or "stringize-va-opt" in r["features"]:
+            # every # result of a judged case is ONE string literal in the model (cpp.stringize re-lexes it, else the
+            # case is undefined) and byte-identical in gcc's output (the spelling sequences are equal)
+            res["stringize_judged"] += 1
         oc = "%d tokens" % min(len(r["exp"]), 12)
         res["outcomes"][oc] = res["outcomes"].get(oc, 0) + 1
         if len(res["samples"]) < 1 and nontrivial and shard_no % 7 == 0:
             res["samples"].append({"case_id": cid, "text": ctext, "expected_tokens": " ".join(r["exp"])})
         if st == 0 and r["got"] == r["exp"]:
             continue
-        sig = classify(r["case"], r["features"], r["exp"], st, r["got"])
+        sig = classify(r["case"], r["features"], r["exp"], st, r["got"], r["text"], r["mark"])
         files = {"c.c": r["text"], "expected.txt": "".join(s + "\n" for s in r["exp"]), "case_id.txt": cid + "\n"}
         if st == 0:
-            desc = "%s  =>  expected [%s] got [%s]" % (ctext.replace("\n", " \\n "), canon(" ".join(r["exp"]), r["serial"]),
+            desc = "%s  =>  expected [%s] got [%s]" % (show(ctext), canon(" ".join(r["exp"]), r["serial"]),
                                                          canon(" ".join(r["got"] or []), r["serial"]))
             add_viol(sig, desc, files, REPLAY_TOKENS % {"mark": r["mark"]})
         else:
             desc = "%s  =>  expected [%s], chibicc status %s: %s" % (
-                ctext.replace("\n", " \\n "), canon(" ".join(r["exp"]), r["serial"]), st,
+                show(ctext), canon(" ".join(r["exp"]), r["serial"]), st,
                 r["err"].strip().split("\n")[-1][:120])
             add_viol(sig, desc, files, REPLAY_STATUS if st != "hang" else REPLAY_TERM)
 
@@ -922,8 +1107,8 @@ def _shard(args):
                 fam = r["case"][0]
                 add_viol("C09|chain|%s|status-differs-after-preceding-case" % fam,
                          "accepted alone, but status %s when preceded by another case: %s ;; %s" % (
-                             st, canon(rs[0]["text"], rs[0]["serial"]).replace("\n", " \\n "),
-                             canon(r["text"], r["serial"]).replace("\n", " \\n ")),
+                             st, show(canon(rs[0]["text"], rs[0]["serial"])),
+                             show(canon(r["text"], r["serial"]))),
                          {"alone.c": r["text"], "packed.c": text}, REPLAY_CHAIN % {"mark": r["mark"]})
                 return
             h = len(rs) // 2
@@ -951,7 +1136,7 @@ def _shard(args):
             nxt = rs[k + 1] if k + 1 < len(rs) else None
             gp = got_p or []
             leaked = "#" in gp and "define" in gp and r["got"] is not None and gp[:len(r["got"])] == r["got"]
-            ctext = canon(r["text"], r["serial"]).replace("\n", " \\n ")
+            ctext = show(canon(r["text"], r["serial"]))
             if leaked:
                 cls = "empty-expansion-at-end-of-line" if ("empty-expansion" in r["features"]) else feature_class(r["features"])
                 sig = "C09|chain|%s|following-directive-not-executed" % cls
@@ -1018,7 +1203,7 @@ def run(ctx):
     results = core.pmap(_shard, args)
     tot = {"cases": 0, "judged": 0, "oracle_disagreements": 0, "ref_rejected": 0, "chibicc_runs": 0, "gcc_runs": 0,
            "undefined_termination_checked": 0, "chain_judged": 0, "unmodelled": 0, "harness_timeouts": 0,
-           "undefined_same_definition_not_rerun": 0}
+           "undefined_same_definition_not_rerun": 0, "stringize_judged": 0}
     skipped = {}
     feats = {}
     outcomes = {}
@@ -1073,7 +1258,21 @@ def run(ctx):
                                 "F7-renamed": dict(("%s-%s" % k, v) for k, v in F7_RENAMED_BOUND[tier].items()),
                                 "F8": F8_BOUND[tier]} if not unfinished else "partial",
               name_sets={"F2": dict((k, F2_NAMINGS[k]) for k in F2_BOUND[tier]), "F7": F7_RENAMINGS},
-              f8_inner_macros=dict((k, F8_INNER_DEFS[k]) for k in F8_INNERS[tier]), f8_arguments=F8_ARGS[tier])
+              f8_inner_macros=dict((k, F8_INNER_DEFS[k]) for k in F8_INNERS[tier]), f8_arguments=F8_ARGS[tier],
+              stringize_judged_cases=tot["stringize_judged"],
+              stringize_literal_alphabet={
+                  "string_prefixes": LIT_STR_PREFIXES, "character_constant_prefixes": LIT_CHR_PREFIXES,
+                  "string_texts": LIT_STR_TEXTS, "character_constant_texts": LIT_CHR_TEXTS, "literals": len(LITERALS),
+                  "phrases": LIT_PHRASES, "core": LIT_CORE, "mini": LIT_MINI,
+                  "F1": "bodies with # and without ## x (all literals + phrases up to %d body tokens, core up to %d, mini up "
+                        "to %d) for the stringized parameter x LIT_SECOND for the other one" % F1_LIT_BOUND[tier],
+                  "F3": "stringizing shapes: every `a` of every text of <= %d tokens replaced by the first %d pairs of "
+                        "F3_LITS (literals holding , ( ) quotes)" % F3_LIT_BOUND[tier],
+                  "F4": "bodies with #: full literal argument lists up to %d body tokens and for the extra bodies, medium up "
+                        "to %d, reduced up to %d" % F4_LIT_BOUND[tier],
+                  "F5": "body `# p`: F5_LIT_INVS", "F8": F8_LIT[tier],
+                  "F8_rule": "every (operand expression, inner macro) in which # sees an argument at either level "
+                             "(expression holds # or inner macro stringizes): literal x plain, plain x literal, literal twice"})
     ctx.assume("gcc 12 -std=gnu17 -E -P is the second oracle; cases where it and the model differ are not judged")
     ctx.assume("token alphabets and bounds per family as in the module docstring and *_BOUND tables")
     ctx.assume("__VA_OPT__ follows C2x (present iff the variable argument expands to at least one token); "
@@ -1091,7 +1290,15 @@ def run(ctx):
                 # operands of # and ## that name macros, with and without a placemarker on the other side (F8)
                 "paste-operand-contains-macro-name", "stringize-operand-contains-macro-name",
                 "paste-placemarker-left-of-macro-name", "paste-placemarker-right-of-macro-name",
-                "invocation-formed-during-rescan"]
+                "invocation-formed-during-rescan",
+                # operands of # that hold string literals / character constants whose text needs escaping (all families
+                # with #), results of # stringized again (F8), literals produced by macro expansion and then stringized
+                "stringize-string-literal", "stringize-character-constant", "stringize-prefixed-string-literal",
+                "stringize-prefixed-character-constant", "stringize-string-literal-containing-backslash",
+                "stringize-character-constant-containing-backslash", "stringize-string-literal-containing-double-quote",
+                "stringize-character-constant-containing-double-quote", "stringize-string-literal-containing-single-quote",
+                "stringize-character-constant-containing-single-quote", "stringize-empty-string-literal",
+                "stringize-result-of-#", "stringize-literal-after-macro-replacement", "stringize-backslash-outside-literal"]
         missing = [f for f in need if not feats.get(f)]
         if missing:
             raise core.HarnessError("vacuous: mechanisms never exercised by a judged case: %s" % missing)
